@@ -333,7 +333,7 @@ func genC01Case(t *rapid.T) (*ScalarCase, bool) {
 		c.Carrier = Carriers[(indexOf(Carriers, c.Carrier)+1)%len(Carriers)]
 	}
 	nt := near || minGtMax || (kind != "string" && kind != "int32")
-	c.T = maybeNamedDeep(t, c.T)
+	finishScalar(t, c)
 	return c, nt
 }
 
